@@ -237,7 +237,7 @@ func (c *Ctx) checkComplementFunc() {
 
 func (c *Ctx) checkReverseFunc() {
 	L := c.L
-	L.Rule("reverse-swap", "Reverse performs, per iteration, exactly the two stores seq[i] = old seq[j] and seq[j] = old seq[i]; i starts at 0 and j at len-1 with i+j invariant (steps +1/-1, or j = len-1-i); the loop runs while i < j")
+	L.Rule("reverse-swap", "Reverse performs, per iteration, exactly the two stores seq[i] = old seq[j] and seq[j] = old seq[i]; i starts at 0 and j at len-1 with i+j invariant (steps +1/-1, or j = len-1-i); the loop condition implies i <= j and its negation implies i >= j (so i < j, i < len/2 … are accepted, i < j-1 or i <= len/2+1 are not)")
 	r := c.fn("align", "", "Reverse")
 	if !r.ok() {
 		return
@@ -305,34 +305,59 @@ func (c *Ctx) checkReverseFunc() {
 			}
 		}
 	}
-	// loop condition i < j
+	// the ascending counter starts at 0 and advances by 1
+	startOK := false
+	for _, ix := range []ssa.Value{a0.Index, a1.Index} {
+		if p, ok := ix.(*ssa.Phi); ok && len(p.Edges) == 2 {
+			self := lc.of(p)
+			for k := 0; k < 2; k++ {
+				if e := lc.of(p.Edges[k]); e.isConst() && e.c == 0 && lc.of(p.Edges[1-k]).equal(self.addc(1)) {
+					startOK = true
+				}
+			}
+		}
+	}
+	inv = inv && startOK
+	// loop condition: the loop is entered only with i <= j (no pair swapped twice) and left only
+	// with i >= j (no pair left out); decided as two infeasibility queries so that `i < j`,
+	// `i < len/2`, `j > i` … are all accepted
 	condOK := false
 	for _, lp := range naturalLoops(fn) {
 		if !lp.Blocks[sts[0].Block()] {
 			continue
 		}
 		if ifi, ok := lp.Head.Instrs[len(lp.Head.Instrs)-1].(*ssa.If); ok {
-			if bo, ok := ifi.Cond.(*ssa.BinOp); ok {
-				for _, cs := range lc.condCons(bo, lp.Blocks[lp.Head.Succs[0]]) {
-					want := consLT(i, j, "i < j")
-					alt := consLT(j, i, "j < i")
-					if cs.e.equal(want.e) || cs.e.equal(alt.e) {
-						condOK = true
-					}
+			enter := lp.Blocks[lp.Head.Succs[0]]
+			in, out := lc.condCons(ifi.Cond, enter), lc.condCons(ifi.Cond, !enter)
+			if len(in) == 0 || len(out) == 0 {
+				continue
+			}
+			vi := valueIndex(fn)
+			query := func(H []cons, extra cons) bool {
+				H = append(append([]cons{}, H...), extra)
+				var forms []lin
+				for _, h := range H {
+					forms = append(forms, h.e)
 				}
+				H = append(H, lc.factsFor(forms, vi)...)
+				feas, ok := feasible(H)
+				return ok && !feas
+			}
+			if query(in, consLT(j, i, "i > j")) && query(out, consLT(i, j, "i < j")) {
+				condOK = true
 			}
 		}
 	}
 	L.Check(swap && inv && condOK, "reverse-swap", r.label, "swap of mirrored positions", c.P.Pos(sts[0].Pos()),
 		"two stores exchange seq[i] and seq[j]; "+how+"; loop runs while i < j",
-		fmt.Sprintf("swap pattern: %v; mirrored indices (i+j = len-1): %v; loop condition i<j: %v", swap, inv, condOK))
+		fmt.Sprintf("swap pattern: %v; mirrored indices (i+j = len-1): %v; loop entered only with i<=j and left only with i>=j: %v", swap, inv, condOK))
 	L.Floor("reverse-swap", 1, "one loop")
 }
 
 // checkRevCompCallers: ReverseComplement and ReverseComplementSequences.
 func (c *Ctx) checkRevCompCallers() {
 	L := c.L
-	L.Rule("revcomp-once", "each iteration of the row loop calls Complement and then Reverse exactly once on the same row buffer (an iteration that fails returns the error), and the alphabet guard returns an error unless the alphabet is NUCLEOTIDS")
+	L.Rule("revcomp-once", "every path through one iteration of the row loop that goes on to the next row performs the event word `Complement(row) Reverse(row)` — calls reached through helpers of the module are expanded in place — and a path that leaves the loop early has performed `Complement(row)` only (its error is returned at every level); the alphabet guard returns an error unless the alphabet is NUCLEOTIDS")
 	comp := c.P.Func("align", "", "Complement")
 	rev := c.P.Func("align", "", "Reverse")
 	for _, nme := range []string{"ReverseComplement", "ReverseComplementSequences"} {
@@ -342,85 +367,149 @@ func (c *Ctx) checkRevCompCallers() {
 		}
 		fn := r.F
 		lc := newLinCtx(c, fn)
-		var cc, rc []*ssa.Call
-		allInstrs(fn, func(in ssa.Instruction) {
-			if call, ok := in.(*ssa.Call); ok {
-				switch call.Common().StaticCallee() {
-				case comp:
-					cc = append(cc, call)
-				case rev:
-					rc = append(rc, call)
-				}
+		root := rootFrame(fn)
+		// events: calls of Complement / Reverse, wherever they are reached from this function
+		// (directly or through helpers of the module); the label carries the buffer, resolved
+		// to a value of this function
+		type ev struct {
+			call *ssa.Call
+			fr   *ipFrame
+			arg  ssa.Value // resolved into the root frame (or the deepest frame it resolves to)
+			afr  *ipFrame
+		}
+		var cs, rs []ev
+		label := func(in ssa.Instruction, fr *ipFrame) string {
+			call, ok := in.(*ssa.Call)
+			if !ok {
+				return ""
 			}
+			g := call.Common().StaticCallee()
+			if g == nil || (g != comp && g != rev) {
+				return ""
+			}
+			v, f := fr.resolveDeep(call.Common().Args[0])
+			name := newLinCtx(c, f.fn).canon(v)
+			if f.up != nil {
+				name += "@" + f.fn.Name()
+			}
+			name = strings.ReplaceAll(name, " ", "")
+			if g == comp {
+				return "C:" + name
+			}
+			return "R:" + name
+		}
+		c.ipWalk(root, func(in ssa.Instruction, fr *ipFrame) bool {
+			if label(in, fr) == "" {
+				return false
+			}
+			call := in.(*ssa.Call)
+			v, f := fr.resolveDeep(call.Common().Args[0])
+			e := ev{call, fr, v, f}
+			if call.Common().StaticCallee() == comp {
+				cs = append(cs, e)
+			} else {
+				rs = append(rs, e)
+			}
+			return true
 		})
-		if len(cc) != 1 || len(rc) != 1 {
-			L.Bad("revcomp-once", r.label, "Complement and Reverse per row", c.P.Pos(fn.Pos()), fmt.Sprintf("%d calls of Complement and %d calls of Reverse, want one each (every residue must be complemented, including the middle one of an odd-length row)", len(cc), len(rc)))
+		if len(cs) != 1 || len(rs) != 1 {
+			L.Bad("revcomp-once", r.label, "Complement and Reverse per row", c.P.Pos(fn.Pos()), fmt.Sprintf("%d calls of Complement and %d calls of Reverse, want one each (every residue must be complemented, including the middle one of an odd-length row)", len(cs), len(rs)))
 			continue
 		}
-		lp := innermostLoopOf(naturalLoops(fn), cc[0].Block())
-		sameBuf := lc.canon(cc[0].Common().Args[0]) == lc.canon(rc[0].Common().Args[0])
-		order := instrDominates(cc[0], rc[0])
-		okCnt := false
-		if lp != nil && lp.Blocks[rc[0].Block()] {
-			cnt := eventCounts(lp, func(in ssa.Instruction) bool { return in == ssa.Instruction(rc[0]) })
-			// iterations that skip Reverse must be those that skip the row (not found) — for the
-			// whole-container variant none may skip
-			if nme == "ReverseComplement" {
-				okCnt = len(cnt) == 1 && cnt[1]
-			} else {
-				okCnt = cnt[1] && !cnt[2]
+		// the instruction of this function through which the Complement is reached
+		var unit ssa.Instruction = cs[0].call
+		if ts := cs[0].fr.topSite(); ts != nil {
+			unit = ts
+		}
+		var runit ssa.Instruction = rs[0].call
+		if ts := rs[0].fr.topSite(); ts != nil {
+			runit = ts
+		}
+		lp := innermostLoopOf(naturalLoops(fn), unit.Block())
+		cl, rl := label(cs[0].call, cs[0].fr), label(rs[0].call, rs[0].fr)
+		sameBuf := cl[2:] == rl[2:]
+		full := cl + " " + rl
+		okCnt, order := false, false
+		wordsTxt := "no row loop"
+		if lp != nil && lp.Blocks[runit.Block()] {
+			ws := c.loopWords(root, lp, label)
+			next, exit := ws["next"], ws["exit"]
+			wordsTxt = "continuing iterations " + next.String() + ", iterations that leave the loop " + exit.String()
+			order = next[full]
+			okCnt = order
+			for w := range next {
+				// an iteration that goes on to the next row did both, in this order — or, in the
+				// by-name variant, skipped a name that was not found
+				if w != full && !(nme == "ReverseComplementSequences" && w == "") {
+					okCnt = false
+				}
+			}
+			for w := range exit {
+				// leaving the loop early is only the error of Complement being returned
+				if w != cl {
+					okCnt = false
+				}
 			}
 		}
 		// row provenance
 		prov := false
-		arg := cc[0].Common().Args[0]
-		if nme == "ReverseComplement" {
-			if _, f, base := loadedField(arg); base != nil && f == "sequence" {
-				if _, isRow := lc.rowOwner(base); isRow {
-					prov = true
+		arg := cs[0].arg
+		if cs[0].afr.up == nil {
+			if nme == "ReverseComplement" {
+				if _, f, base := loadedField(arg); base != nil && f == "sequence" {
+					if _, isRow := lc.rowOwner(base); isRow {
+						prov = true
+					}
 				}
-			}
-		} else {
-			if call, ok := arg.(*ssa.Call); ok && getterName(call.Common()) == "SequenceChar" {
-				if _, isRow := lc.rowOwner(lc.recvOf(call.Common())); isRow {
-					prov = true
+			} else {
+				if call, ok := arg.(*ssa.Call); ok && getterName(call.Common()) == "SequenceChar" {
+					if _, isRow := lc.rowOwner(lc.recvOf(call.Common())); isRow {
+						prov = true
+					}
 				}
 			}
 		}
-		// error of Complement is returned
-		errRet := false
-		for _, e := range returnEdges(fn) {
-			if e.kind != "ok" && (cc[0].Block().Dominates(e.block)) {
-				errRet = true
+		// the error of Complement is returned, at every level of the call chain
+		errProp := func(call *ssa.Call) bool {
+			for _, e := range returnEdges(call.Parent()) {
+				if e.kind != "ok" && call.Block().Dominates(e.block) {
+					return true
+				}
 			}
+			if refs := call.Referrers(); refs != nil {
+				for _, ref := range *refs {
+					if bo, ok := ref.(*ssa.BinOp); ok && bo.Op == token.NEQ {
+						return true
+					}
+					if _, ok := ref.(*ssa.Phi); ok {
+						return true
+					}
+					if _, ok := ref.(*ssa.Return); ok {
+						return true
+					}
+				}
+			}
+			return false
 		}
-		if !errRet {
-			// named result: `if err = Complement(...); err != nil { return }`
-			for _, ref := range *cc[0].Referrers() {
-				if bo, ok := ref.(*ssa.BinOp); ok && bo.Op == token.NEQ {
-					errRet = true
-				}
-				if phi, ok := ref.(*ssa.Phi); ok {
-					_ = phi
-					errRet = true
-				}
-			}
+		errRet := errProp(cs[0].call)
+		for f := cs[0].fr; f.up != nil; f = f.up {
+			errRet = errRet && errProp(f.site)
 		}
 		// alphabet guard
 		guard := false
 		allInstrs(fn, func(in ssa.Instruction) {
 			if bo, ok := in.(*ssa.BinOp); ok && bo.Op == token.NEQ {
 				if k, ok := constInt(bo.Y); ok && k == 1 { // NUCLEOTIDS
-					if bo.Block().Dominates(cc[0].Block()) {
+					if bo.Block().Dominates(unit.Block()) {
 						guard = true
 					}
 				}
 			}
 		})
 		okAll := sameBuf && order && okCnt && prov && errRet && guard
-		L.Check(okAll, "revcomp-once", r.label, "Complement then Reverse per row", c.P.Pos(cc[0].Pos()),
-			"same row buffer, Complement before Reverse, once per row, error propagated, nucleotide guard dominates",
-			fmt.Sprintf("same buffer: %v; order: %v; once per row: %v; buffer is a row of the receiver: %v; error propagated: %v; alphabet guard: %v", sameBuf, order, okCnt, prov, errRet, guard))
+		L.Check(okAll, "revcomp-once", r.label, "Complement then Reverse per row", c.P.Pos(unit.Pos()),
+			"same row buffer, Complement before Reverse, once per row ("+wordsTxt+"), error propagated, nucleotide guard dominates",
+			fmt.Sprintf("same buffer: %v; order: %v; once per row: %v (%s); buffer is a row of the receiver: %v; error propagated: %v; alphabet guard: %v", sameBuf, order, okCnt, wordsTxt, prov, errRet, guard))
 	}
 	L.Floor("revcomp-once", 2, "two functions")
 }
@@ -434,28 +523,55 @@ func (c *Ctx) checkCaseFold() {
 			continue
 		}
 		fn := r.F
-		lc := newLinCtx(c, fn)
-		sts := rowStores(lc, fn)
+		// stores into a row buffer, in the function or in helpers of the module it calls
+		type rst struct {
+			st *ssa.Store
+			fr *ipFrame
+		}
+		var sts []rst
+		lcs := map[*ssa.Function]*linCtx{}
+		lcOf := func(f *ssa.Function) *linCtx {
+			if lcs[f] == nil {
+				lcs[f] = newLinCtx(c, f)
+			}
+			return lcs[f]
+		}
+		c.ipWalk(rootFrame(fn), func(in ssa.Instruction, fr *ipFrame) bool {
+			if st, ok := in.(*ssa.Store); ok {
+				if ia, ok := st.Addr.(*ssa.IndexAddr); ok && lcOf(fr.fn).isRowBuffer(ia.X) {
+					sts = append(sts, rst{st, fr})
+				}
+			}
+			return false
+		})
 		if len(sts) != 1 {
 			L.Bad("case-fold", r.label, "row store", c.P.Pos(fn.Pos()), fmt.Sprintf("%d row stores, want 1", len(sts)))
 			continue
 		}
-		st := sts[0]
+		st, fr := sts[0].st, sts[0].fr
+		lc := lcOf(fr.fn)
 		ia := st.Addr.(*ssa.IndexAddr)
 		ok := false
-		if call, isCall := stripConv(st.Val).(*ssa.Call); isCall && isPkgFunc(call.Common(), "unicode", lib) {
-			if u, isU := stripConv(call.Common().Args[0]).(*ssa.UnOp); isU && u.Op == token.MUL {
-				if kia, isIA := u.X.(*ssa.IndexAddr); isIA && lc.canon(kia.X) == lc.canon(ia.X) && lc.of(kia.Index).equal(lc.of(ia.Index)) {
-					ok = true
+		if call, isCall := stripConv(st.Val).(*ssa.Call); isCall {
+			// the mapping applied: a direct call of unicode.ToUpper/ToLower, or a function-valued
+			// parameter of the helper that the call chain binds to it
+			isLib := isPkgFunc(call.Common(), "unicode", lib)
+			if !isLib && !call.Common().IsInvoke() {
+				if v, _ := fr.resolve(call.Common().Value); v != nil {
+					if f, isF := v.(*ssa.Function); isF && f.Pkg != nil && f.Pkg.Pkg.Path() == "unicode" && f.Name() == lib {
+						isLib = true
+					}
+				}
+			}
+			if isLib && len(call.Common().Args) == 1 {
+				if u, isU := stripConv(call.Common().Args[0]).(*ssa.UnOp); isU && u.Op == token.MUL {
+					if kia, isIA := u.X.(*ssa.IndexAddr); isIA && lc.canon(kia.X) == lc.canon(ia.X) && lc.of(kia.Index).equal(lc.of(ia.Index)) {
+						ok = true
+					}
 				}
 			}
 		}
-		nLoops := 0
-		for _, lp := range naturalLoops(fn) {
-			if lp.Blocks[st.Block()] {
-				nLoops++
-			}
-		}
+		nLoops := loopDepthIP(st, fr)
 		L.Check(ok && nLoops == 2, "case-fold", r.label, "seq[i] = unicode."+lib+"(seq[i])", c.P.Pos(st.Pos()), "stored at the index it was loaded from, inside the row loop and the column loop",
 			fmt.Sprintf("the stored value is not unicode.%s of the byte at the same row and index (ok=%v, enclosing loops=%d)", lib, ok, nLoops))
 	}
